@@ -95,7 +95,12 @@ package federation
 //@   noescape
 //@   safe
 //@   ensures panicked ==> calls(Recover) == 1
-//@   at `assign list[*]` requires idx == reps[i].index && len(typedReps) == len(reps)
+//@   at `assign list[*]` requires idx == usable[i].index && len(typedReps) == len(usable)
+//@   loop *: invariant len(typedReps) == len(usable)
+// C20 "a failure while resolving one representation never changes the element of another" (D36): inside the loops
+// that go through the representations / the returned entities nothing fails the whole group - a representation that
+// cannot be coerced is reported and skipped; the group as a whole only fails with its batch resolver
+//@   inloop ensures res0 == nil
 //@   ghost narrowed = false
 //@   at! `append(same, rep)` requires err == nil && name == resolverName
 //@   at! `append(other, rep)` requires err == nil && name != resolverName && resolverName != ""
